@@ -100,7 +100,9 @@ CHECKS["C03"] = dict(
     quick=dict(shards=8, checks=400, timeout=900),
     thorough=dict(shards=16, checks=6000, timeout=3000),
     assumptions=[
-        "one sender and one receiver goroutine per channel end (documented single-reader discipline)",
+        "one receiver goroutine per channel end (documented single-reader discipline); one sender per end in the Delivery layer, 2..4 concurrent senders per channel in the SharedChannelSenders layer",
+        "with concurrent senders a Send that did not return OK (it lost against SendAndClose) may or may not have been delivered; every Send that returned OK must be",
+        "schedule perturbation (seeded yields/sleeps of <= 0.5 ms at the library's verif-tagged schedule points) only delays goroutines; it cannot create an interleaving the Go scheduler could not produce",
         "empty messages are filtered from both sides (open/close frames drop empty payloads, data frames deliver them)",
         "the harness waits with wait-then-poll order; the public ReceiveAsync/ReceiveWait pair used poll-then-wait can miss a wakeup because of the dependency's byte queue (see DESIGN.md)",
         "a case that does not finish within 60 s is reported as a violation (both ends run independent sender/receiver goroutines, so no user-level wait cycle exists)",
